@@ -5,6 +5,8 @@ import WhVerif.Lemmas.C01Table
 import WhVerif.Lemmas.C01GrayOrder
 import WhVerif.Lemmas.C01WitnessMain
 import WhVerif.Lemmas.C01WitnessAlleles
+import WhVerif.Lemmas.C01Input
+import WhVerif.Lemmas.C01InputSort
 /-!
 # C01 — property theorems (about the model `WhVerif.C01` of `PedigreeDPTable`)
 
@@ -190,5 +192,79 @@ example : ∃ β τ, witness exampleInst = some (β, τ) ∧ totalCost exampleIn
   have h : (witness exampleInst).isSome = true := by decide +kernel
   obtain ⟨⟨β, τ⟩, hw⟩ := Option.isSome_iff_exists.mp h
   exact ⟨β, τ, hw, (dp_witness _ exampleInst_wf β τ hw).2.2.2⟩
+
+/-! ## the solver's real input: ReadSet + `positions` (Model/C01Input.lean models `ColumnIterator`'s conversion)
+
+`mkInst positions reads …` is the instance the DP runs on when `PedigreeDPTable` is constructed from a ReadSet
+whose reads (in ReadSet order) are `reads` and from the `positions` vector; `none` = the constructor does not
+return (exceptions "reads in ReadSet are not sorted" / "read with unsorted variants" / "No variants present",
+the asserts on first/last position not being a column) or `positions` is not strictly increasing (interface
+precondition). -/
+
+/-- whenever the constructor accepts the input, the instance satisfies the precondition of `dp_optimal`:
+sortedness by first *position* (what the code checks) is sortedness by first *column* (what the DP needs) -/
+theorem mkInst_wf (positions : List Nat) (reads : List RawRead) (nind : Nat) (trios : List (Nat × Nat × Nat))
+    (geno : List (List (List (Option Nat)))) (recomb : List Nat) (I : Inst)
+    (h : mkInst positions reads nind trios geno recomb = some I) : WF I :=
+  WhVerif.C01.mkInst_wf h
+
+/-- every read of the instance spans a column interval `first ≤ last < ncols` (so the code's two further
+asserts can never fire), all its entries lie inside the span, and it has real entries at both ends -/
+theorem mkInst_spans (positions : List Nat) (reads : List RawRead) (nind : Nat) (trios : List (Nat × Nat × Nat))
+    (geno : List (List (List (Option Nat)))) (recomb : List Nat) (I : Inst)
+    (h : mkInst positions reads nind trios geno recomb = some I) :
+    (∀ r, r < I.nreads → (I.read r).first ≤ (I.read r).last ∧ (I.read r).last < I.ncols) ∧
+    (∀ r, r < I.nreads → ∀ e ∈ (I.read r).entries, (I.read r).first ≤ e.1 ∧ e.1 ≤ (I.read r).last) ∧
+    (∀ r, r < I.nreads → ((I.read r).entryAt (I.read r).first).isSome ∧
+      ((I.read r).entryAt (I.read r).last).isSome) := by
+  have s := WhVerif.C01.mkInst_spans h
+  exact ⟨fun r hr => ⟨s.first_le_last r hr, s.last_lt r hr⟩, s.entries_in, s.ends⟩
+
+/-- **the conversion is faithful**: in every column `c` the active reads (id order) with their entries or BLANK,
+as the DP model reads them off the instance, are what `ColumnIterator::get_next` computes from the ReadSet at
+the genomic position `positions[c]` — reads with `firstPosition ≤ p ≤ lastPosition`, each with the variant stored
+at `p` if any (variants at positions that are not columns are never seen) -/
+theorem mkInst_column (positions : List Nat) (reads : List RawRead) (nind : Nat) (trios : List (Nat × Nat × Nat))
+    (geno : List (List (List (Option Nat)))) (recomb : List Nat) (I : Inst)
+    (h : mkInst positions reads nind trios geno recomb = some I) (c : Nat) (hc : c < positions.length) :
+    I.ncols = positions.length ∧ I.column c = rawColumn reads positions[c] :=
+  ⟨(WhVerif.C01.mkInst_some h).2.2.1, WhVerif.C01.mkInst_column h c hc⟩
+
+/-- **Optimality on the real input**: whenever `PedigreeDPTable`'s constructor accepts a ReadSet, the DP value
+is the true minimum of the (Ped)MEC objective of the resulting instance — no hypothesis left -/
+theorem dp_optimal_raw (positions : List Nat) (reads : List RawRead) (nind : Nat)
+    (trios : List (Nat × Nat × Nat)) (geno : List (List (List (Option Nat)))) (recomb : List Nat) (I : Inst)
+    (h : mkInst positions reads nind trios geno recomb = some I) : dpCost I = optCost I :=
+  dp_optimal I (WhVerif.C01.mkInst_wf h)
+
+/-- `ReadSet::sort()` (comparator model `C16.readLt`) makes the constructor's sortedness check pass: a sorted
+ReadSet of reads with variants is never rejected as "reads in ReadSet are not sorted" -/
+theorem sorted_readset_not_rejected_as_unsorted (l : List (WhVerif.C16.ReadKey × RawRead))
+    (hkey : ∀ x ∈ l, x.1.hasVariants = true ∧ x.1.firstPos = x.2.firstPos)
+    (positions : List Nat) (nind : Nat) (trios : List (Nat × Nat × Nat))
+    (geno : List (List (List (Option Nat)))) (recomb : List Nat) :
+    mkInstE positions ((WhVerif.C16.sortReads l).map (fun x => x.2)) nind trios geno recomb
+      ≠ .error .readsUnsorted :=
+  WhVerif.C01.sorted_readset_not_rejected_as_unsorted l hkey positions nind trios geno recomb
+
+/-! Non-vacuity: a ReadSet over genomic positions (one variant of the first read sits at position 260, which is
+not a column and is skipped) converts to `exampleInst`. -/
+def exampleRaw : List RawRead :=
+  [ { ind := 0, variants := [(100, 0, 5), (250, 1, 7), (260, 1, 99), (300, 0, 3)] },
+    { ind := 2, variants := [(100, 1, 4), (250, 1, 6)] },
+    { ind := 2, variants := [(250, 0, 2), (300, 1, 9)] } ]
+
+theorem exampleRaw_ok : mkInst [100, 250, 300] exampleRaw exampleInst.nind exampleInst.trios exampleInst.geno
+    exampleInst.recomb = some exampleInst := by rfl
+
+example : WF exampleInst := mkInst_wf _ _ _ _ _ _ _ exampleRaw_ok
+example : dpCost exampleInst = optCost exampleInst := dp_optimal_raw _ _ _ _ _ _ _ exampleRaw_ok
+example : exampleInst.column 1 = rawColumn exampleRaw 250 := (mkInst_column _ _ _ _ _ _ _ exampleRaw_ok 1 (by decide)).2
+/-- the rejections are real: unsorted reads, unsorted variants, a first position that is no column -/
+example : mkInstE [100, 250, 300] exampleRaw.reverse 3 [] [] [] = .error .readsUnsorted := by rfl
+example : mkInstE [100, 250] [{ ind := 0, variants := [(250, 0, 1), (100, 1, 1)] }] 1 [] [] []
+    = .error .variantsUnsorted := by rfl
+example : mkInstE [100, 250] [{ ind := 0, variants := [(90, 0, 1), (100, 1, 1)] }] 1 [] [] []
+    = .error .positionNotAColumn := by rfl
 
 end WhVerif.Props.C01
